@@ -138,6 +138,7 @@ class Case:
         self.stale = set()
         self.last_target = None
         self.last_field = None
+        self.coincident = None
         self.nh = 0
         self.ctx = {"component": "hyb", "universe": self.U.line(), "ops": self.ops}
 
@@ -202,6 +203,9 @@ class Case:
                 v = self.num_value()
                 kw[py] = v
                 words.append(f"{py}=n{v}")
+            elif given and n in given and given[n] is None:
+                kw[py] = None
+                words.append(f"{py}=none")
             elif given and n in given:
                 kw[py] = self.handles[given[n]]
                 words.append(f"{py}=i{given[n]}")
@@ -267,6 +271,34 @@ class Case:
         n, k, c = [f for f in self.U.spec[ci][0] if f[0] == n][0]
         return hn, obj, ci, n, k, c
 
+    def coincident_source(self, obj, n, c):
+        """a fresh object of the field's class in ANOTHER buffer of the same context at the SAME offset as the nested field it is
+        going to be assigned to (raw padding allocations are invisible to the model: it identifies objects, not addresses)"""
+        self.coincident = None
+        try:
+            part = getattr(obj._xobject, n)
+            bi = self.bidx(obj._xobject._buffer)
+            if part is None or bi > 1:
+                return
+            other = self.bufs[1 - bi]
+            x = int(part._offset)
+            if len(other.chunks) != 1 or other.chunks[0].start > x or other.chunks[0].end < x + 512:
+                return
+            if x > other.chunks[0].start:
+                npad = x - other.chunks[0].start
+                other.allocate(npad)
+                self.ops.append(f"pad {1 - bi} {npad}")     # recorded for the replay; the model has no addresses: answer not compared
+                self.exp.append(None)
+            before = len(self.ops)
+            self.op_new(ci=c, bi=1 - bi)
+            if len(self.ops) > before and self.exp[-1].startswith("inst"):
+                name = f"H{self.nh}"
+                if int(self.handles[name]._xobject._offset) == x:
+                    self.coincident = name
+                    self.tags["set.N.source-at-the-field's-offset-in-another-buffer"] += 1
+        except Exception:
+            self.coincident = None
+
     def op_set(self, target=None, source=None):
         cands = self.insts()
         if not cands:
@@ -282,7 +314,12 @@ class Case:
         elif source is not None:
             word, val = f"i{source}", self.handles[source]
         else:
+            if k == "N" and r.random() < 0.3:
+                self.coincident_source(obj, n, c)
             srcs = self.insts(c)
+            if k == "N" and self.coincident is not None and r.random() < 0.8:
+                srcs = [(self.coincident, self.handles[self.coincident])]
+            self.coincident = None
             if k == "R" and (not srcs or r.random() < 0.25):
                 word, val = "none", None
             elif srcs:
@@ -297,6 +334,15 @@ class Case:
             setattr(obj, py, val)
             self.exp.append("ok")
             self.tags[f"set.{k}.ok"] += 1
+            if k == "N" and hasattr(val, "_xobject"):
+                # "assigning a hybrid object to a non-reference field stores an independent copy": equal in value
+                try:
+                    a, b = self.strip(self.values(getattr(obj, py))), self.strip(self.values(val))
+                    xa = self.xvalues(getattr(obj._xobject, n), c)
+                except Exception:
+                    a = b = xa = None
+                if a != b or (xa is not None and xa != b):
+                    self.fail("C18:assigned-copy-differs", f"{hn}.{py} = {word}: the field reads {a} (buffer data {xa}), the assigned object {b}")
         except MemoryError:
             self.exp.append("err Memory")
             self.tags[f"set.{k}.err-memory"] += 1
@@ -654,6 +700,8 @@ def replay_ops(ops, fails, tags):
                     n = inv[ci].get(py, py)
                     if v.startswith("i"):
                         given[n] = v[1:]
+                    elif v == "none":
+                        given[n] = None
                     elif v.startswith("n"):
                         nums[py] = int(v[1:])
                 seq = iter([nums[U.pyname(ci, n)] for n, k, _ in U.spec[ci][0] if k == "n"])
@@ -678,6 +726,11 @@ def replay_ops(ops, fails, tags):
                 c.op_copy(target=(w[2], int(w[3])))
             elif w[0] == "move":
                 c.op_move(target=(w[1], int(w[2])))
+            elif w[0] == "pad":
+                c.bufs[int(w[1])].allocate(int(w[2]))
+                c.ops.append(line)
+                c.exp.append(None)
+                continue
             elif w[0] == "pyset":
                 setattr(c.handles[w[1]], w[2], int(w[3]))
                 c.ops.append(line)
